@@ -11,6 +11,7 @@ import (
 	"go/token"
 	"os"
 	"os/exec"
+	"path"
 	"path/filepath"
 	"strconv"
 	"strings"
@@ -362,6 +363,76 @@ func analyseStubs(src string) (calls []stubCall, types []string, perr error) {
 	return calls, types, nil
 }
 
+// c19GoPkg interprets a go_package-style string the way protoc-gen-go does: "path;name", "path" (name is
+// the last element), or nothing (directory of the source file, name from the proto package or file name).
+func c19GoPkg(spec, fileName, protoPkg string) (pkgPath, pkgName string) {
+	switch {
+	case spec == "":
+		pkgPath = path.Dir(fileName)
+		pkgName = protoPkg
+		if pkgName == "" {
+			pkgName = strings.TrimSuffix(path.Base(fileName), path.Ext(fileName))
+		}
+	case strings.Contains(spec, ";"):
+		parts := strings.Split(spec, ";")
+		pkgPath, pkgName = parts[0], parts[1]
+	default:
+		pkgName = path.Base(spec)
+		if strings.Contains(spec, "/") {
+			pkgPath = spec
+		} else {
+			pkgPath = path.Dir(fileName)
+		}
+	}
+	var b strings.Builder
+	for i, ch := range pkgName {
+		switch {
+		case ch >= '0' && ch <= '9':
+			if i == 0 {
+				b.WriteByte('_')
+			}
+			b.WriteRune(ch)
+		case ch >= 'a' && ch <= 'z', ch >= 'A' && ch <= 'Z':
+			b.WriteRune(ch)
+		default:
+			b.WriteByte('_')
+		}
+	}
+	return pkgPath, b.String()
+}
+
+// c19Placement models where the stubs of the generated file belong: the Go package protoc-gen-go puts the
+// file's own service descriptions in (an M mapping for the file beats its go_package), except that
+// import_path stands in for files that have no M mapping. Also the package of the dependency file.
+func c19Placement(c c19Case) (ownPath, ownName, depPath, module string) {
+	imap := map[string]string{}
+	importPath := ""
+	for _, p := range c.Params {
+		vals := strings.SplitN(p, "=", 2)
+		switch {
+		case vals[0] == "import_path" && len(vals) == 2:
+			importPath = vals[1]
+		case vals[0] == "module" && len(vals) == 2:
+			module = vals[1]
+		case len(vals[0]) > 1 && vals[0][0] == 'M' && len(vals) == 2:
+			imap[vals[0][1:]] = vals[1]
+		}
+	}
+	spec := c.GoPackage
+	if m, ok := imap[c.FileName]; ok {
+		spec = m
+	} else if importPath != "" {
+		spec = importPath
+	}
+	ownPath, ownName = c19GoPkg(spec, c.FileName, c.Package)
+	depSpec := "example.com/dep;deppb"
+	if m, ok := imap[c19DepFile]; ok {
+		depSpec = m
+	}
+	depPath, _ = c19GoPkg(depSpec, c19DepFile, "dep.pkg")
+	return
+}
+
 func propC19(c c19Case) *Outcome {
 	o := &Outcome{}
 	if c.Mode == "regenerate" {
@@ -383,6 +454,14 @@ func propC19(c c19Case) *Outcome {
 			}
 		}
 		_ = seenStream
+	}
+	for _, p := range c.Params {
+		if strings.HasPrefix(p, "M"+c.FileName+"=") {
+			o.class("M-mapping-for-generated-file")
+		}
+		if strings.HasPrefix(p, "import_path=") {
+			o.class("import_path")
+		}
 	}
 	o.NonTrivial = interleaved || len(c.Services) >= 2 || !valid
 	req := &pluginpb.CodeGeneratorRequest{
@@ -443,6 +522,39 @@ func propC19(c c19Case) *Outcome {
 	calls, types, perr := analyseStubs(src)
 	if perr != nil {
 		return o.failf("emitted code does not parse: %v", perr)
+	}
+	// placement: the stubs refer to <Svc>_ServiceDesc, <Svc>Server and <Svc>Client unqualified, so they are
+	// only "for its own service description" when they land in the package those live in
+	ownPath, ownName, depPath, module := c19Placement(c)
+	af, _ := parser.ParseFile(token.NewFileSet(), "gen.go", src, parser.ImportsOnly)
+	if af.Name.Name != ownName {
+		return o.failf("package clause %q; the file's Go package (M mapping, else import_path, else go_package %q) is named %q", af.Name.Name, c.GoPackage, ownName)
+	}
+	if !sourceRel {
+		dir := ownPath
+		if module != "" {
+			dir = strings.TrimPrefix(dir, strings.TrimSuffix(module, "/")+"/")
+		}
+		if want := path.Join(dir, base); outs[0].GetName() != want {
+			return o.failf("output file %q, expected %q (Go package path %q, module %q)", outs[0].GetName(), want, ownPath, module)
+		}
+	}
+	imports := map[string]bool{}
+	for _, im := range af.Imports {
+		ip, _ := strconv.Unquote(im.Path.Value)
+		imports[ip] = true
+	}
+	if imports[ownPath] {
+		return o.failf("emitted file imports its own package %q", ownPath)
+	}
+	if legacyStubs && depPath != ownPath {
+		for _, s := range c.Services {
+			for _, m := range s.Methods {
+				if !m.CS && !m.SS && (m.In == "dep" || m.Out == "dep") && !imports[depPath] {
+					return o.failf("%s.%s uses a message of %s (Go package %q) yet the emitted file does not import it (imports %v)", s.Name, m.Name, c19DepFile, depPath, imports)
+				}
+			}
+		}
 	}
 	byFn := map[string][]stubCall{}
 	for _, sc := range calls {
@@ -595,7 +707,7 @@ func genC19(t *rapid.T) c19Case {
 	}
 	np := rapid.IntRange(0, 4).Draw(t, "nparams")
 	pool := []string{"legacy_stubs", "legacy_stubs", "legacy_stubs=true", "legacy_stubs=on", "legacy_stubs=YES", "legacy_stubs=1", "legacy_stubs=false", "legacy_stubs=0", "legacy_desc_names", "legacy_desc_names=true", "legacy_desc_names=no",
-		"debug", "debug=off", "paths=import", "paths=source_relative", "module=example.com/mod", "module=example.com/foo", "import_path=example.com/override", "Mdep/dep.proto=example.com/other/dep", "Msvc.proto=example.com/m/svc;svcpb",
+		"debug", "debug=off", "paths=import", "paths=source_relative", "module=example.com/mod", "module=example.com/foo", "import_path=example.com/override", "import_path=example.com/override/v2;ovr", "Mdep/dep.proto=example.com/other/dep", "Msvc.proto=example.com/m/svc;svcpb", "Ma/b/svc.proto=example.com/mod/ab", "Mx_y/my_api.proto=example.com/m/api;apipb",
 		// documented invalid forms
 		"legacy_stubs=maybe", "paths=relative", "paths", "module", "import_path", "Mfoo.proto", "bogus", "bogus=1", "debug=2", "legacy_desc_names=", "M"}
 	for i := 0; i < np; i++ {
